@@ -7,11 +7,70 @@
 set -u
 export GOFLAGS=-mod=mod GOPROXY=off GOSUMDB=off GOTOOLCHAIN=local
 S=/var/tmp/c13mut
-all="fix-f5 fix-timescale no-max-tracks unknown-track-is-error ts-h265-supported no-leading-check close-ignored ts-busy-loop"
+all="all-repairs fix-f5 fix-timescale no-max-tracks unknown-track-is-error ts-h265-supported no-leading-check close-ignored ts-busy-loop"
 [ $# -gt 0 ] && all="$*"
 for m in $all; do
   rm -rf $S; cp -r /repo $S; rm -rf $S/.git
   case $m in
+    all-repairs)   # the three proposed repairs (findings/C13-*.json); compared with the REPAIRED model: expect exit 0
+      export VERIF_C13_REPAIRS=tracks,join
+      python3 - <<'PY'
+p='/var/tmp/c13mut/client_stream_processor_fmp4.go'
+s=open(p).read()
+old='''	p.leadingTrackID = fmp4PickLeadingTrack(&p.init)
+'''
+new='''	// skip tracks with unsupported codecs, reject invalid time scales
+	var supportedTracks []*fmp4.InitTrack
+	for _, track := range p.init.Tracks {
+		if track.TimeScale == 0 {
+			return fmt.Errorf("invalid time scale")
+		}
+		if codecs.FromFMP4(track.Codec) != nil {
+			supportedTracks = append(supportedTracks, track)
+		}
+	}
+	if len(supportedTracks) == 0 {
+		return fmt.Errorf("no supported tracks found")
+	}
+	p.init.Tracks = supportedTracks
+
+	p.leadingTrackID = fmp4PickLeadingTrack(&p.init)
+'''
+assert old in s
+s=s.replace(old,new)
+old='''			err := trackProc.push(ctx, &procEntryFMP4{
+				partTrack: partTrack,
+				dts:       dts,
+				ntp:       ntp,
+			})
+			if err != nil {
+				return err
+			}
+'''
+new='''			entry := &procEntryFMP4{
+				partTrack: partTrack,
+				dts:       dts,
+				ntp:       ntp,
+			}
+
+			// while pushing, collect the tokens of part tracks that have been processed,
+			// otherwise track processors get stuck as soon as chPartTrackProcessed is full
+			for pushed := false; !pushed; {
+				select {
+				case trackProc.queue <- entry:
+					pushed = true
+				case <-p.chPartTrackProcessed:
+					partTrackCount--
+				case <-ctx.Done():
+					return fmt.Errorf("terminated")
+				}
+			}
+'''
+assert old in s
+s=s.replace(old,new)
+open(p,'w').write(s)
+PY
+      ;;
     fix-f5)   # the proposed fix for finding 1: tracks with a codec gohlslib does not know are neither exposed nor processed
       python3 - <<'PY'
 import re
@@ -115,7 +174,8 @@ PY
     [ -f "$f" ] && python3 -c "
 import json,sys
 d=json.load(open('$f'))
-print('   ', '$f'.split('/')[-1], '|', d.get('signature') or d.get('correspondence'), '|', (d.get('what') or d.get('detail') or '')[:260].replace('\n',' '))"
+print('   ', '$f'.split('/')[-1], '|', d.get('signature') or d.get('correspondence'), '|', (d.get('what') or d.get('detail') or str(d.get('errors') or ''))[:260].replace('\n',' '))"
   done
   rm -rf $S /verif/work/alt-*
+  unset VERIF_C13_REPAIRS
 done
